@@ -359,6 +359,7 @@ def lookupAll (tbl : Array Int) (idx : List Int) : Option (List Int) :=
     (the engine returns early without building maps). -/
 def island (ntree : Nat) (dofnum : Array Int) (dofTree : List Nat) (rows : List (Option (List Int)))
     (flexes : List (List (Int × Bool))) : Option IslandOut :=
+  if rows.isEmpty then none else            -- `!nefc`: quick return with nisland = 0, flex coupling not examined
   match unionConstraintTrees ntree rows flexes with
   | none => none
   | some (p, efcTree) =>
